@@ -42,6 +42,8 @@ type c09Kind struct{ code, text string }
 var c09Kinds = []c09Kind{
 	{"n0", "0"}, {"n1", "1"}, {"nm", "-1"}, {"nh", "0.5"}, {"nb", "1E+308"}, {"ni", "9007199254740992"},
 	{"ts", `"abc"`}, {"te", `""`}, {"tn", `"12"`}, {"tm", `"-2"`},
+	// multi-byte text: 2-byte runes, 3-byte runes, a 4-byte rune with a combining mark
+	{"u2", `"héllo wörld"`}, {"u3", `"日本語テキスト"`}, {"u4", "\"a😀e\u0301x\""},
 	{"em", ""},
 	{"bt", "TRUE"},
 	{"er", "NA()"},
@@ -51,6 +53,15 @@ var c09Kinds = []c09Kind{
 
 // reduced dictionary for arity 4
 var c09Kinds4 = []string{"n0", "nm", "nb", "ts", "em", "bt", "er", "rg", "ar"}
+
+// text-shaped arity-4 product (text, position, count, text): what REPLACE / MID / SUBSTITUTE-like
+// functions take; multi-byte text against positions and counts inside and beyond the text
+var c09Kinds4Text = [4][]string{
+	{"u2", "u3", "u4", "ts", "te"},
+	{"n1", "tn", "n0", "nm"},
+	{"n1", "tn", "n0", "ni"},
+	{"u3", "ts", "n1", "em"},
+}
 
 func c09KindText(code string) (string, bool) {
 	for _, k := range c09Kinds {
@@ -677,6 +688,10 @@ func c09Product(names []string, tier string, rng *Rng) []c09Job {
 	for i, k := range c09Kinds {
 		all[i] = k.code
 	}
+	in4 := map[string]bool{}
+	for _, k := range c09Kinds4 {
+		in4[k] = true
+	}
 	stride3, stride4 := 29, 31
 	if tier == "thorough" {
 		stride3, stride4 = 1, 1
@@ -699,6 +714,18 @@ func c09Product(names []string, tier string, rng *Rng) []c09Job {
 					n++
 					if (n+off)%stride3 == 0 {
 						jobs = append(jobs, c09FnJob(name, []string{a, b, c}))
+					}
+				}
+			}
+		}
+		for _, a := range c09Kinds4Text[0] {
+			for _, b := range c09Kinds4Text[1] {
+				for _, c := range c09Kinds4Text[2] {
+					for _, d := range c09Kinds4Text[3] {
+						if in4[a] && in4[b] && in4[c] && in4[d] {
+							continue // already in the reduced arity-4 product below
+						}
+						jobs = append(jobs, c09FnJob(name, []string{a, b, c, d}))
 					}
 				}
 			}
